@@ -123,7 +123,7 @@ pub fn check_d(rt: &tokio::runtime::Runtime, c: &Case, report: &mut Report) -> b
     ];
     let batch = RecordBatch::try_new(schema.clone(), cols).expect("batch");
     let sql = format!("SELECT rid, {} AS p FROM t ORDER BY rid", sql_pred);
-    let res: Result<Vec<Option<bool>>, String> = rt.block_on(async {
+    let res: Result<Vec<Option<bool>>, String> = csv_common::catch(std::panic::AssertUnwindSafe(|| rt.block_on(async {
         let ctx = SessionContext::new();
         let table = MemTable::try_new(schema.clone(), vec![vec![batch]]).map_err(|e| e.to_string())?;
         ctx.register_table("t", Arc::new(table)).map_err(|e| e.to_string())?;
@@ -144,7 +144,8 @@ pub fn check_d(rt: &tokio::runtime::Runtime, c: &Case, report: &mut Report) -> b
             }
         }
         Ok(v)
-    });
+    })))
+    .unwrap_or_else(|p| Err(format!("engine panic: {}", p)));
     let engine = match res {
         Ok(v) => v,
         Err(_) => {
@@ -221,12 +222,17 @@ fn run_sql(rt: &tokio::runtime::Runtime, table_name: &str, sql: &str, rows: &[Ro
         Arc::new(UInt64Array::from(rows.iter().map(|r| match get(r, 4) { V::Int(i) => Some(i as u64), _ => None }).collect::<Vec<_>>())),
     ];
     let batch = RecordBatch::try_new(schema.clone(), cols).map_err(|e| e.to_string())?;
-    rt.block_on(async {
-        let ctx = SessionContext::new();
-        let table = MemTable::try_new(schema.clone(), vec![vec![batch]]).map_err(|e| e.to_string())?;
-        ctx.register_table(table_name, Arc::new(table)).map_err(|e| e.to_string())?;
-        ctx.sql(sql).await.map_err(|e| e.to_string())?.collect().await.map_err(|e| e.to_string())
-    })
+    // DataFusion's own planner can panic in a debug build (interval arithmetic on
+    // i64 extremes): that is an engine error for this oracle, not a harness crash
+    csv_common::catch(std::panic::AssertUnwindSafe(|| {
+        rt.block_on(async {
+            let ctx = SessionContext::new();
+            let table = MemTable::try_new(schema.clone(), vec![vec![batch]]).map_err(|e| e.to_string())?;
+            ctx.register_table(table_name, Arc::new(table)).map_err(|e| e.to_string())?;
+            ctx.sql(sql).await.map_err(|e| e.to_string())?.collect().await.map_err(|e| e.to_string())
+        })
+    }))
+    .unwrap_or_else(|p| Err(format!("engine panic: {}", p)))
 }
 
 /// Ground truth for leg C: the ids of the rows for which DataFusion itself
